@@ -53,10 +53,11 @@ const (
 	zzAltValid // another allowed value (N9 for N3, debug for info, dns name for address)
 	zzNearMiss // an invalid value that begins or ends like a valid one (N39, gtp5gx, 10.60.0.0/16x); for the
 	// node id: an IPv6 literal, which is a well-formed host but has no IPv4 address to resolve to
+	zzNearMiss2 // the other kind of near miss: a valid value with something in FRONT of it (xinfo, xN3, xgtp5g)
 	zzNK
 )
 
-var zzKindName = [zzNK]string{"ok", "deleted", "emptied", "invalid", "mistyped", "alt-valid", "near-miss"}
+var zzKindName = [zzNK]string{"ok", "deleted", "emptied", "invalid", "mistyped", "alt-valid", "near-miss", "near-miss-prefix"}
 
 type zzDoc struct{ k [zzNF]int }
 
@@ -69,9 +70,14 @@ func zzScalar(f, k int) (string, bool) {
 	alt := [zzNF]string{zzFVersion: "1.0.3", zzFPfcpAddr: "upf.free5gc.org", zzFNodeID: "127.0.0.9", zzFTimeout: "1500ms", zzFMaxRetrans: "255",
 		zzFForwarder: "gtp5g", zzFIfAddr: "upf.free5gc.org", zzFIfType: "N9", zzFIfMTU: "9000", zzFDnn: "ims", zzFCidr: "10.61.0.0/24", zzFLevel: "debug"}
 	near := [zzNF]string{zzFVersion: "1.0.3x", zzFPfcpAddr: "127.0.0.8/24", zzFNodeID: `"::1"`, zzFTimeout: "0s", zzFMaxRetrans: "300",
-		zzFForwarder: "gtp5gx", zzFIfAddr: "127.0.0.8/24", zzFIfType: "N39", zzFIfMTU: "-1", zzFDnn: `""`, zzFCidr: "10.60.0.0/16x", zzFLevel: "xinfo"}
+		zzFForwarder: "gtp5gx", zzFIfAddr: "127.0.0.8/24", zzFIfType: "N39", zzFIfMTU: "-1", zzFDnn: `""`, zzFCidr: "10.60.0.0/16x", zzFLevel: "infox"}
 	if k == zzNearMiss {
 		return near[f], true
+	}
+	if k == zzNearMiss2 {
+		near2 := near
+		near2[zzFVersion], near2[zzFForwarder], near2[zzFIfType], near2[zzFLevel], near2[zzFCidr] = "x1.0.3", "xgtp5g", "xN3", "xinfo", "x10.60.0.0/16"
+		return near2[f], true
 	}
 	empty := `""`
 	switch f {
@@ -118,7 +124,7 @@ func (d *zzDoc) render() string {
 		case zzDeleted:
 		case zzEmptied:
 			sb.WriteString(key + ":\n")
-		case zzInvalid, zzMistyped, zzNearMiss:
+		case zzInvalid, zzMistyped, zzNearMiss, zzNearMiss2:
 			sb.WriteString(key + ": 5\n")
 		default:
 			sb.WriteString(key + ":\n")
@@ -139,7 +145,7 @@ func (d *zzDoc) render() string {
 		case zzDeleted:
 		case zzEmptied:
 			sb.WriteString("  ifList: []\n")
-		case zzInvalid, zzMistyped, zzNearMiss:
+		case zzInvalid, zzMistyped, zzNearMiss, zzNearMiss2:
 			sb.WriteString("  ifList: 5\n")
 		default:
 			sb.WriteString("  ifList:\n    - name: n3.upf\n")
@@ -152,7 +158,7 @@ func (d *zzDoc) render() string {
 	case zzDeleted:
 	case zzEmptied:
 		sb.WriteString("dnnList: []\n")
-	case zzInvalid, zzMistyped, zzNearMiss:
+	case zzInvalid, zzMistyped, zzNearMiss, zzNearMiss2:
 		sb.WriteString("dnnList: 5\n")
 	default:
 		sb.WriteString("dnnList:\n  - natifname: eth0\n")
@@ -200,7 +206,7 @@ func (d *zzDoc) decode(c *Config) bool {
 	c.Description = "UPF configuration"
 	switch d.k[zzFPfcp] {
 	case zzDeleted, zzEmptied:
-	case zzInvalid, zzMistyped, zzNearMiss:
+	case zzInvalid, zzMistyped, zzNearMiss, zzNearMiss2:
 		return false
 	default:
 		p := &Pfcp{}
@@ -227,7 +233,7 @@ func (d *zzDoc) decode(c *Config) bool {
 	}
 	switch d.k[zzFGtpu] {
 	case zzDeleted, zzEmptied:
-	case zzInvalid, zzMistyped, zzNearMiss:
+	case zzInvalid, zzMistyped, zzNearMiss, zzNearMiss2:
 		return false
 	default:
 		g := &Gtpu{}
@@ -238,7 +244,7 @@ func (d *zzDoc) decode(c *Config) bool {
 		case zzDeleted:
 		case zzEmptied:
 			g.IfList = []IfInfo{}
-		case zzInvalid, zzMistyped, zzNearMiss:
+		case zzInvalid, zzMistyped, zzNearMiss, zzNearMiss2:
 			return false
 		default:
 			i := IfInfo{Name: "n3.upf"}
@@ -261,7 +267,7 @@ func (d *zzDoc) decode(c *Config) bool {
 	case zzDeleted:
 	case zzEmptied:
 		c.DnnList = []DnnList{}
-	case zzInvalid, zzMistyped, zzNearMiss:
+	case zzInvalid, zzMistyped, zzNearMiss, zzNearMiss2:
 		return false
 	default:
 		e := DnnList{NatIfName: "eth0"}
@@ -275,7 +281,7 @@ func (d *zzDoc) decode(c *Config) bool {
 	}
 	switch d.k[zzFLogger] {
 	case zzDeleted, zzEmptied:
-	case zzInvalid, zzMistyped, zzNearMiss:
+	case zzInvalid, zzMistyped, zzNearMiss, zzNearMiss2:
 		return false
 	default:
 		l := &Logger{Enable: true}
